@@ -260,22 +260,87 @@ func checkC08(p *Prog, res *Result, tier string) {
 func casIsMonotone(p *Prog, r *Roles, ck *compactKeyRole, c ssa.CallInstruction) (string, bool) {
 	oldVal := resolve(argForSigParam(c, 2))
 	newVal := argForSigParam(c, 1)
-	get, idx, ok := extractOf(oldVal)
-	if !ok || idx != 0 || !r.is(get, r.KVGet) || !ck.isKey(argForSigParam(get, 1)) {
-		return "the expected value of the CAS is not the value just read from the compaction record", false
-	}
-	if !instrDominates(get, c.(ssa.Instruction)) {
-		return "the read of the record does not dominate the CAS", false
-	}
 	rb, ok := p.revisionBytesOf(newVal)
 	if !ok {
 		return "cannot identify the revision encoded in the new record value", false
 	}
 	newRev := resolve(rb.Rev)
-	ok, witness := allPathsPass(c.Block(), func(e edge) bool {
+	// the batch may be built by a helper that is handed the value read and the new revision: judge the write at the
+	// (only) call site of the helper, in the frame where the record was read
+	site := c.(ssa.Instruction)
+	extra := map[string]bool{}
+	type guardCond struct {
+		c     ssa.Value
+		want  bool
+		level int
+	}
+	var conds []guardCond
+	var chain []map[ssa.Value]ssa.Value
+	for d := 0; d < 3; d++ {
+		prm, isPrm := oldVal.(*ssa.Parameter)
+		if !isPrm || prm.Parent() != site.Parent() {
+			break
+		}
+		sites, ok := p.liftSites(site.Parent())
+		if !ok || len(sites) != 1 {
+			break
+		}
+		cs, isCall := sites[0].(ssa.CallInstruction)
+		if !isCall {
+			break
+		}
+		actual := func(v ssa.Value) ssa.Value {
+			if q, ok := v.(*ssa.Parameter); ok && q.Parent() == site.Parent() {
+				if i := paramIndex(q); i < len(cs.Common().Args) {
+					return resolve(cs.Common().Args[i])
+				}
+			}
+			return v
+		}
+		// what guards the write inside the helper also holds, in terms of the actuals, whenever the call matters
+		subst := map[ssa.Value]ssa.Value{}
+		for i, q := range site.Parent().Params {
+			if i < len(cs.Common().Args) {
+				subst[q] = cs.Common().Args[i]
+			}
+		}
+		for _, b := range site.Parent().Blocks {
+			if ifOf(b) == nil {
+				continue
+			}
+			for si := 0; si < 2; si++ {
+				if edgeDominates(edge{b, si}, site.Block()) {
+					iff := ifOf(b)
+					want := si == 0
+					cnd := iff.Cond
+					for {
+						if u, ok := cnd.(*ssa.UnOp); ok && u.Op == token.NOT {
+							cnd, want = u.X, !want
+							continue
+						}
+						break
+					}
+					conds = append(conds, guardCond{cnd, want, len(chain)})
+				}
+			}
+		}
+		chain = append(chain, subst)
+		oldVal, newRev, site = actual(oldVal), actual(newRev), sites[0]
+	}
+	for _, gc := range conds {
+		extra[pureKeyC(gc.c, chain[gc.level:])] = gc.want
+	}
+	get, idx, ok := extractOf(oldVal)
+	if !ok || idx != 0 || !r.is(get, r.KVGet) || !ck.isKey(argForSigParam(get, 1)) {
+		return "the expected value of the CAS is not the value just read from the compaction record", false
+	}
+	if !instrDominates(get, site) {
+		return "the read of the record does not dominate the CAS", false
+	}
+	ok, witness := allPathsPassWith(site.Block(), func(e edge) bool {
 		cf := edgeFact(e)
 		return cf.X != nil && guardNotGreater(cf, oldVal, newRev)
-	})
+	}, extra)
 	if ok {
 		return "CAS expects the value just read and every feasible path to it passes the guard stored <= new", true
 	}
